@@ -302,8 +302,8 @@ class Check:
     def __init__(self, prop: str, tier: str, repo: Repo | None = None):
         self.prop = prop
         self.tier = tier
-        self.repo = repo or Repo()
         self.t0 = time.time()
+        self.repo = repo or Repo()
         self.obs: list[Obligation] = []
         self.notes: list[str] = []
         self.floors: dict[str, int] = {}
